@@ -5,8 +5,10 @@
     every run, decided here): the flag is a `std::atomic<bool>` initialised `false`, accessed only
     through `store(true)` and `load` — it is never stored `false`; the solvers touch their
     `stop_signal` member only through `stop()`, `stop_requested()` and by passing it (const ref) to
-    `check_all_stop_conditions`; PANOC polls it at the loop head, in the condition of the
-    line-search loop, and right after that loop.  Hence the value a poll sees is a *monotone*
+    `check_all_stop_conditions`; PANOC polls it in the condition of the initial step-size loop, at
+    the loop head, in the condition of the line-search loop, and right after that loop; every
+    solver's step-size backtracking loop polls it (`stepsize_loops_poll`).  Hence the value a poll
+    sees is a *monotone*
     function of time (`stop_monotone_of_history`): that is the only property of the flag the loop
     theorems use (`StopMono`).  Data-race freedom itself is the C++ memory model's guarantee for
     `std::atomic` and is not modelled (validated by the ThreadSanitizer run of `checks/c19.py`).
@@ -44,13 +46,35 @@ theorem flag_api :
 theorem solvers_use_api_only : ∀ u ∈ signalUses, u.2 ≠ .other := by decide
 
 /-- PANOC's poll sites, in source order: the loop head (through `check_all_stop_conditions`, which
-    polls once), the line-search loop condition, the `continue` right after the line search. -/
+    polls once), the line-search loop condition, the `continue` right after the line search —
+    preceded by the condition of the initial step-size loop
+    `while (!stop_requested() && L < L_max && qub_violated(…))`. -/
 theorem panoc_poll_sites :
     (signalUses.filter (fun u => u.1 == "panoc.tpp")).map (·.2) =
-      [.passToChain, .whileNotPoll, .ifPollContinue] ∧
+      [.whileNotPollQub, .passToChain, .whileNotPoll, .ifPollContinue] ∧
     (signalUses.filter (fun u => u.1 == "panoc-helpers.tpp")).map (·.2) = [.paramConstRef, .poll] ∧
     (signalUses.filter (fun u => u.1 == "panoc.hpp")).map (·.2) = [.callStop, .member] := by
   decide
+
+/-- **The step-size loops poll the flag, in every solver scanned**: each of panoc.tpp, zerofpr.tpp,
+    pantr.tpp (`backtrack_qub`, used for the initial and the in-iteration backtracking), fista.tpp
+    and panoc-ocp.tpp has exactly one `while` loop whose condition calls `qub_violated`, and its
+    condition is `!stop_signal.stop_requested() && L < params.L_max && qub_violated(…)`. -/
+theorem stepsize_loops_poll :
+    stepsizeLoops.map (·.1) = ["panoc.tpp", "zerofpr.tpp", "pantr.tpp", "fista.tpp", "panoc-ocp.tpp"] ∧
+    ∀ l ∈ stepsizeLoops, l.2.1 = true ∧ l.2.2 = true := by decide
+
+/-- The initial step-size loop precedes the loop head in every solver: the first poll site of each
+    `.tpp` file (after the progress-callback lambda of PANOC-OCP) is the step-size loop condition,
+    the next one the loop-head check (`check_all_stop_conditions`, or the direct poll of PANOC-OCP's
+    own `check_all_stop_conditions` lambda, which is defined before the initialisation). -/
+theorem init_loop_polls_every_solver :
+    (signalUses.filter (fun u => u.1 == "zerofpr.tpp")).map (·.2) =
+      [.whileNotPollQub, .passToChain, .whileNotPoll, .ifPollContinue] ∧
+    (signalUses.filter (fun u => u.1 == "pantr.tpp")).map (·.2) = [.whileNotPollQub, .passToChain] ∧
+    (signalUses.filter (fun u => u.1 == "fista.tpp")).map (·.2) = [.whileNotPollQub, .passToChain] ∧
+    (signalUses.filter (fun u => u.1 == "panoc-ocp.tpp")).map (·.2) =
+      [.poll, .whileNotPollQub, .whileNotPoll, .ifPollContinue] := by decide
 
 /-- Value of the flag after a history of accesses (in the flag's modification order). -/
 def flagAfter (b : Bool) : List FlagAccess → Bool
@@ -199,41 +223,108 @@ theorem mainLoop_ticks_after_stop (P : Problem α) (dir : Direction D α) (pr : 
         have := ih (iterBody P dir pr stop (headStep P pr stop oot s).1 (headStep P pr stop oot s).2.1)
         omega
 
+/-- **Once the flag is visible the initial step-size loop makes no further evaluation**: the loop
+    `while (!stop_requested() && L < L_max && qub_violated)` polls the flag first. -/
+theorem initQub_no_eval_after_stop (P : Problem α) (pr : Params α) (stop : Nat → Bool) (f : Nat)
+    (c : Iterate α) (t b : Nat) (h : stop t = true) :
+    initQub P pr stop (f + 1) c t b = (c, t, b, false) :=
+  initQub_stop_id P pr stop f c t b h
+
 /-- Number of oracle calls of the initialisation (Lipschitz estimate, first proximal-gradient step,
-    initial quadratic-upper-bound backtracking — this loop does not poll the flag). -/
-def initTicks (P : Problem α) (d0 : D) (pr : Params α) (x0 gV : Vec α) (gS : α) : Nat :=
-  match initState P d0 pr x0 gV gS with
+    initial quadratic-upper-bound backtracking). -/
+def initTicks (P : Problem α) (d0 : D) (pr : Params α) (stop : Nat → Bool) (x0 gV : Vec α) (gS : α) :
+    Nat :=
+  match initState P d0 pr stop x0 gV gS with
   | .inl t => t
   | .inr s => s.tick
 
-/-- **At most one further iteration's worth of evaluations after `stop()`**: if the (monotone) flag
-    is visible from tick `t₀` on, the solve ends at tick `≤ t₀ + 7` — unless the request landed
-    during the initialisation, which is not interruptible: then it ends `≤ 4` ticks after the
-    initialisation (first head + exit block). -/
+/-- The initialisation makes `2` or `1` calls for the Lipschitz estimate / first `ψ, ∇ψ`, `2` for
+    the first proximal-gradient step and `2` per initial step-size backtrack. -/
+theorem initTicks_eq (P : Problem α) (d0 : D) (pr : Params α) (stop : Nat → Bool) (x0 gV : Vec α)
+    (gS : α) (s : St α D) (h : initState P d0 pr stop x0 gV gS = .inr s) :
+    s.tick = (if pr.L0 ≤ 0 then 2 else 1) + 2 + 2 * s.stats.stepsizeBacktracks := by
+  have := initState_ticks P d0 pr stop x0 gV gS
+  rw [h] at this
+  exact this
+
+/-- **The initialisation is interruptible**: with a monotone flag visible from tick `t₀` on, the
+    initialisation ends at tick `≤ max 4 (t₀ + 1)` — whatever the number of step-size backtracks the
+    quadratic upper bound would still ask for.  `4` = the calls made before the first poll
+    (Lipschitz estimate `≤ 2`, first proximal-gradient step and `ψ(x̂)`); `t₀ + 1`: a backtrack
+    (2 calls) is only started at a tick `< t₀`. -/
+theorem initTicks_after_stop (P : Problem α) (d0 : D) (pr : Params α) (stop : Nat → Bool)
+    (hm : StopMono stop) (t0 : Nat) (h0 : stop t0 = true) (x0 gV : Vec α) (gS : α) :
+    initTicks P d0 pr stop x0 gV gS ≤ max 4 (t0 + 1) := by
+  unfold initTicks initState
+  simp only []
+  split_ifs with h1 h2 h3 <;> simp only [] <;>
+    first
+    | omega
+    | exact Nat.le_trans (initQub_tick_bound P pr stop hm t0 h0 _ _ _ _) (by omega)
+
+/-- **At most one further iteration's worth of evaluations after `stop()`** — wherever the request
+    lands, the initialisation included: if the (monotone) flag is visible from tick `t₀` on, the
+    solve ends at tick `≤ max 8 (t₀ + 7)`, independent of the number of initial step-size backtracks.
+    `8` = a request that is already visible at the first poll: `≤ 4` calls before that poll
+    (Lipschitz estimate, first proximal-gradient step) + first head (`≤ 2`) + exit block (`≤ 2`);
+    `t₀ + 7`: see `mainLoop_ticks_after_stop` (a request landing inside the initial step-size loop
+    gives `≤ t₀ + 5`: the backtrack in flight, head, exit block). -/
 theorem at_most_one_iteration_after_stop (P : Problem α) (dir : Direction D α) (d0 : D)
     (pr : Params α) (stop : Nat → Bool) (hm : StopMono stop) (t0 : Nat) (h0 : stop t0 = true)
     (oot : Bool) (x0 y Sig errz0 gV : Vec α) (gS : α) :
-    (run P dir d0 pr stop oot x0 y Sig errz0 gV gS).ticks ≤
-      max (initTicks P d0 pr x0 gV gS + 4) (t0 + 7) := by
-  unfold run initTicks
-  cases hi : initState P d0 pr x0 gV gS with
+    (run P dir d0 pr stop oot x0 y Sig errz0 gV gS).ticks ≤ max 8 (t0 + 7) := by
+  have hi := initTicks_after_stop P d0 pr stop hm t0 h0 x0 gV gS
+  unfold initTicks at hi
+  unfold run
+  cases hs : initState P d0 pr stop x0 gV gS with
   | inl t =>
-    have := initState_ticks P d0 pr x0 gV gS
-    rw [hi] at this
+    have := initState_ticks P d0 pr stop x0 gV gS
+    rw [hs] at this
     simp only [] at this ⊢
     omega
   | inr s =>
-    simp only []
-    exact mainLoop_ticks_after_stop P dir pr stop hm t0 h0 oot x0 y Sig errz0 _ s
+    rw [hs] at hi
+    simp only [] at hi ⊢
+    have := mainLoop_ticks_after_stop P dir pr stop hm t0 h0 oot x0 y Sig errz0 (pr.maxIter + 2) s
+    omega
 
-/-- The initialisation makes `2` or `1` calls for the Lipschitz estimate / first `ψ, ∇ψ`, `2` for
-    the first proximal-gradient step and `2` per initial step-size backtrack. -/
-theorem initTicks_eq (P : Problem α) (d0 : D) (pr : Params α) (x0 gV : Vec α) (gS : α) (s : St α D)
-    (h : initState P d0 pr x0 gV gS = .inr s) :
-    s.tick = (if pr.L0 ≤ 0 then 2 else 1) + 2 + 2 * s.stats.stepsizeBacktracks := by
-  have := initState_ticks P d0 pr x0 gV gS
-  rw [h] at this
-  exact this
+/-- The bound in the form `t₀ + c`: `≤ t₀ + 8` always, `≤ t₀ + 7` for a request that lands during
+    or after the first oracle call (`t₀ ≥ 1` — every request made while the solve is running). -/
+theorem ticks_after_stop_le (P : Problem α) (dir : Direction D α) (d0 : D)
+    (pr : Params α) (stop : Nat → Bool) (hm : StopMono stop) (t0 : Nat) (h0 : stop t0 = true)
+    (oot : Bool) (x0 y Sig errz0 gV : Vec α) (gS : α) :
+    (run P dir d0 pr stop oot x0 y Sig errz0 gV gS).ticks ≤ t0 + 8 ∧
+    (1 ≤ t0 → (run P dir d0 pr stop oot x0 y Sig errz0 gV gS).ticks ≤ t0 + 7) := by
+  have := at_most_one_iteration_after_stop P dir d0 pr stop hm t0 h0 oot x0 y Sig errz0 gV gS
+  constructor
+  · omega
+  · intro h1; omega
+
+/-- **A solve whose initial step-size loop was cut short ends at its first loop head**: if the
+    (monotone) flag is visible when the initialisation ends, the solve returns through the exit block
+    of the first head — no direction call, no line search, `0` iterations, exactly one callback (the
+    final one, reporting the initial iterate), at most `4` further calls. -/
+theorem init_interrupted_single_callback (P : Problem α) (dir : Direction D α) (d0 : D)
+    (pr : Params α) (stop : Nat → Bool) (hm : StopMono stop) (oot : Bool)
+    (x0 y Sig errz0 gV : Vec α) (gS : α) (s : St α D)
+    (hs : initState P d0 pr stop x0 gV gS = .inr s) (hst : stop s.tick = true) :
+    (headStep P pr stop oot s).2.2 ≠ .Busy ∧
+    run P dir d0 pr stop oot x0 y Sig errz0 gV gS =
+      exitBlock P pr (headStep P pr stop oot s).1 (headStep P pr stop oot s).2.1
+        (headStep P pr stop oot s).2.2 x0 y Sig errz0 ∧
+    (run P dir d0 pr stop oot x0 y Sig errz0 gV gS).stats.iterations = 0 ∧
+    (run P dir d0 pr stop oot x0 y Sig errz0 gV gS).callbacks.length = 1 ∧
+    (run P dir d0 pr stop oot x0 y Sig errz0 gV gS).ticks ≤ s.tick + 4 := by
+  have hf := headStep_fields P pr stop oot s
+  have hk := C06Panoc.initState_k P d0 pr stop x0 gV gS s hs
+  have hstop : stop (headStep P pr stop oot s).1.tick = true := hm _ _ hf.2.2.2.2.2.1 hst
+  have hx := stop_at_head_exits P dir pr stop oot x0 y Sig errz0 (pr.maxIter + 1) s hstop
+  have hr : run P dir d0 pr stop oot x0 y Sig errz0 gV gS =
+      mainLoop P dir pr stop oot x0 y Sig errz0 (pr.maxIter + 1 + 1) s := by
+    unfold run; rw [hs]
+  refine ⟨hx.1, by rw [hr]; exact hx.2.1, by rw [hr, hx.2.2.2]; exact hk.1, ?_, ?_⟩
+  · rw [hr, hx.2.1, exitBlock_callbacks, hf.2.2.1, hk.2.2]; rfl
+  · rw [hr]; have := hx.2.2.1; omega
 
 /-! ### Interrupted or natural status -/
 
@@ -357,9 +448,25 @@ example : StopMono (stopAt (some 7)) := by
 /-- flag visible from tick 7: the run ends Interrupted at tick 9 ≤ 7 + 7, still in iteration 0,
     while the undisturbed run takes 18 ticks and two iterations. -/
 example : (rq (some 7)).stats.status = .Interrupted ∧ (rq (some 7)).ticks = 9 ∧
-    (rq (some 7)).ticks ≤ max (initTicks Pq () prq [1] [] 0 + 4) (7 + 7) ∧
+    (rq (some 7)).ticks ≤ max 8 (7 + 7) ∧
     (rq (some 7)).fuelOut = false ∧ (rq (some 7)).stats.iterations = 0 ∧
     (rq none).ticks = 18 ∧ (rq none).stats.iterations = 2 := by decide +kernel
+
+/-- `L₀ = 1/16` (true curvature 1): the initial step-size loop backtracks 4 times (8 calls). -/
+def rqSmall (t0 : Option Nat) : Result ℚ Unit :=
+  run Pq dirNoop () { prq with L0 := 1/16 } (stopAt t0) false [1] [] [] [] [] 0
+
+/-- a request landing inside the initialisation (flag visible from tick 4, i.e. during the first
+    backtrack): the initial loop stops after that backtrack (1 instead of 4), the first head returns
+    `Interrupted` at tick 6 ≤ max 8 (4 + 7) with the single final callback; undisturbed, the
+    initialisation alone takes 11 calls. -/
+example : (rqSmall (some 4)).stats.status = .Interrupted ∧ (rqSmall (some 4)).ticks = 6 ∧
+    (rqSmall (some 4)).ticks ≤ max 8 (4 + 7) ∧ (rqSmall (some 4)).stats.stepsizeBacktracks = 1 ∧
+    (rqSmall (some 4)).callbacks.length = 1 ∧ (rqSmall (some 4)).stats.iterations = 0 ∧
+    (rqSmall (some 4)).fuelOut = false ∧
+    (rqSmall none).stats.stepsizeBacktracks = 4 ∧ (rqSmall none).fuelOut = false ∧
+    initTicks Pq () { prq with L0 := 1/16 } (stopAt none) [1] [] 0 = 11 ∧
+    initTicks Pq () { prq with L0 := 1/16 } (stopAt (some 4)) [1] [] 0 = 5 := by decide +kernel
 
 /-- a history of accesses as they occur in the source: once set, the flag stays set -/
 example : flagAfter false [.load, .store (some true), .load, .store (some true), .load] = true := by
